@@ -10,12 +10,17 @@ a statement) is a parameter `Rules`, so everything proved here holds for every r
 
 The Python mutates the proof object while checking (`seq.th = res_th`, `seq.subproof = …`) and
 resolves citations by `prf.find_item(prev)` from the root, so the model threads the root
-(`List Item`) and addresses the item under inspection by its position path.  `ItemID.can_depend_on`
-and `Thm.can_prove` are the definitions generated from the Python source (Gen.lean).
+(`List Item`) and passes the position path `pos` walked to the item under inspection, exactly as
+`_check_proof_item(prf, seq, pos, …)` does; the guard `seq.id.id != pos` is `seq.id ≠ posId pos`.
+`ItemID.can_depend_on` and `Thm.can_prove` are the definitions generated from the Python source
+(Gen.lean).
 
-Modelling assumptions: the proof object is a tree (no `ProofItem` object occurs at two places), so
-`prf.find_item(seq.id) is seq` (with non-negative components) is `seq.id = position of seq`;
-Python's recursion limit is an explicit `fuel`.
+A Python proof object is a graph: one `ProofItem` / `Proof` object may sit at several places.  The
+model receives its unfolding (the tree of values).  The two runs agree on acceptance and on
+everything observed after an accepted run: the guard compares the id with the walked path, so an
+object met at a second walked place is refused there (its id matches at most one path), on both
+sides; citations and the block result are only read at walked places; what aliasing changes at
+places that are never walked is not part of the outcome.  Python's recursion limit is an explicit `fuel`.
 -/
 namespace Holpy.C02
 
@@ -68,12 +73,14 @@ inductive Kind where
   deriving DecidableEq, Repr
 
 /-- The rule layer. `thm`: `get_theorem`; `var`: `Thm.mk_VAR`; `prim`: `primitive_deriv[rule]`;
+`primSig`: the argument is of the kind `primitive_deriv[rule]` declares (`None` for no argument);
 `eval`/`expand`: `macro.eval`, `macro.expand(seq.id, args, zip(prevs, prev_ths))`;
 `typeOk`: `th.check_thm_type()` does not raise. -/
 structure Rules where
   kind : String → Kind
   thm : Arg → Except RuleErr Seq
   var : Arg → Except RuleErr Seq
+  primSig : String → Arg → Bool
   prim : String → Arg → List Seq → Except RuleErr Seq
   eval : String → Arg → List Seq → Except RuleErr Seq
   expand : String → List Int → Arg → List (List Int × Seq) → Except RuleErr (List Item)
@@ -292,7 +299,8 @@ def checkItem (R : Rules) (cfg : Cfg) : Nat → List Item → List Nat → Item 
         | .ok prevThs =>
           match R.kind seq.rule with
           | .prim =>
-            match R.prim seq.rule seq.args prevThs with
+            if !R.primSig seq.rule seq.args then .error (.check .invalidInput)
+            else match R.prim seq.rule seq.args prevThs with
             | .error .invalidDerivation => .error (.check .invalidDerivation)
             | .error .typeError => .error (.check .invalidInput)
             | .error e => .error (.raised e)
